@@ -29,7 +29,10 @@ props! {
     c09 => "C09",
     c11 => "C11",
     c12 => "C12",
+    c13 => "C13",
     c14 => "C14",
+    c24 => "C24",
+    c25 => "C25",
     c26 => "C26",
     c27 => "C27",
     c28 => "C28",
@@ -50,6 +53,7 @@ pub fn internal(cmd: &str, args: &[String]) -> i32 {
     match cmd {
         "__iql" => scratch_iql(&args[0]),
         "__c07" => c07::child_main(),
+        "__c13work" => c13::child_main(),
         _ => {
             eprintln!("unknown internal command");
             2
